@@ -30,6 +30,7 @@ func init() {
 				{Name: "list-d4", Check: "C03", Params: wp{Type: "list", Alpha: "rich"}, Depth: 4},
 				{Name: "doc-d4", Check: "C03", Params: wp{Type: "doc"}, Depth: 4},
 				{Name: "docarr-d4", Check: "C03", Params: wp{Type: "doc", Prefix: "arr4"}, Depth: 3},
+				{Name: "docnest-d3", Check: "C03", Params: wp{Type: "doc", Prefix: "nest3"}, Depth: 3},
 			}
 		} else {
 			p.BudgetS = 3000
@@ -38,6 +39,8 @@ func init() {
 				{Name: "map-d6", Check: "C03", Params: wp{Type: "map", Alpha: "rich"}, Depth: 6},
 				{Name: "list-d5", Check: "C03", Params: wp{Type: "list", Alpha: "rich"}, Depth: 5, MaxState: 400000},
 				{Name: "doc-d4", Check: "C03", Params: wp{Type: "doc", Alpha: "rich"}, Depth: 4, MaxState: 400000},
+				{Name: "docarr-d4", Check: "C03", Params: wp{Type: "doc", Prefix: "arr4"}, Depth: 4, MaxState: 400000},
+				{Name: "docnest-d4", Check: "C03", Params: wp{Type: "doc", Prefix: "nest3", Alpha: "rich"}, Depth: 4, MaxState: 400000},
 			}
 		}
 		return p
